@@ -5,6 +5,7 @@ import (
 	"fmt"
 	"hash/fnv"
 	"reflect"
+	"strconv"
 	"strings"
 )
 
@@ -1050,7 +1051,9 @@ func (hash *SexpHash) SexpString(ps *PrintState) string {
 			onKey++
 			switch s := key.(type) {
 			case *SexpStr:
-				str += indInner + `"` + s.S + `":`
+				// quoted like any other string (a quote or backslash in
+				// the key made the printed form unreadable)
+				str += indInner + strconv.Quote(s.S) + `:`
 			case *SexpSymbol:
 				if asJSON {
 					str += indInner + `"` + s.name + `":`
